@@ -588,6 +588,10 @@ func (sc *ServerConfig) UDPRelay(logger *zap.Logger, maxClientPackerHeadroom zer
 
 	switch sc.Protocol {
 	case "direct":
+		if sc.TunnelUDPTargetOnly && !sc.TunnelRemoteAddress.IsIP() {
+			// The source filter compares packet source addresses with the tunnel's remote address.
+			return nil, errors.New("tunnelUDPTargetOnly requires tunnelRemoteAddress to be an IP address")
+		}
 		natServer = direct.NewDirectUDPNATServer(sc.TunnelRemoteAddress, sc.TunnelUDPTargetOnly)
 
 	case "tproxy":
